@@ -16,6 +16,7 @@ from .runner import h64
 # --------------------------------------------------------------------- leaves
 INT_LEAVES = [0, -1, 10 ** 30]
 FLOAT_LEAVES = ['1.5', '-0.0', '0.0', 'inf', '-inf', 'nan', '1e+300', '5e-324']
+FLOAT_EXTRA = ['1e+22', '1.5e-07', '-1e+16', '123456789.12345678', '2.220446049250313e-16', '-inf', '9007199254740993.0']
 STR_LEAVES = ['', 'a', "'", '"', '\\', ' ', '\n', 'é', '\x00', 'a' * 30, 'lorem ipsum ' * 3]
 BYTES_LEAVES = ['', 'a', "'", '"', '\\', ' ', '\n', '\xe9', '\x00', 'a' * 30, 'lorem ipsum ' * 3]
 
@@ -309,7 +310,7 @@ def normalise_ast(tree):
 
 
 # ------------------------------------------------------------- random values
-ALPHA = ['a', 'b', 'Z', ' ', "'", '"', '\\', '\n', '\t', 'é', '中', '\x00', '\x7f', '#', '(', ',', '\U0001f600', '0', '-', '_']
+ALPHA = ['a', 'b', 'Z', ' ', "'", '"', '\\', '\n', '\t', 'é', '中', '\x00', '\x7f', '#', '(', ',', '\U0001f600', '0', '-', '_', '\r', '\x0c', '\ud800', '\xa0', '\u2028']
 
 
 def rand_text(rng, maxlen=60):
@@ -328,9 +329,9 @@ def rand_text(rng, maxlen=60):
 def rand_leaf(rng, hashable_only=False):
     c = rng.random()
     if c < 0.22:
-        return ['int', rng.choice([0, 1, -1, 7, 255, -2 ** 31, 2 ** 64, 10 ** 30, rng.randint(-10 ** 6, 10 ** 6)])]
+        return ['int', rng.choice([0, 1, -1, 7, 255, -2 ** 31, 2 ** 64, 10 ** 30, -10 ** 80, 10 ** 200, rng.randint(-10 ** 6, 10 ** 6)])]
     if c < 0.40:
-        return ['float', rng.choice(FLOAT_LEAVES + [repr(rng.uniform(-1e6, 1e6)), repr(rng.random() * 1e-9)])]
+        return ['float', rng.choice(FLOAT_LEAVES + FLOAT_EXTRA + [repr(rng.uniform(-1e6, 1e6)), repr(rng.random() * 1e-9)])]
     if c < 0.50:
         return rng.choice([['bool', True], ['bool', False], ['none'], ['ellipsis']])
     if c < 0.80:
